@@ -38,7 +38,17 @@ def sem_sig(body, s, depth=0):
     if s.kind == 'call':
         nm = (s.cs.callee or 'indirect').split('::')[-1]
         base = (s.cs.callee or '').split('::')[-2] if '::' in (s.cs.callee or '') else ''
-        pj = ''.join('.' + p.split(':')[-1] for p in s.proj if p.startswith('field:'))
+        # the success payload reads the same whether it was taken with `?` or by a match on Ok / Some
+        pr = []
+        skip = False
+        for p in s.proj:
+            if skip and p.startswith('field:0:'):
+                skip = False
+                continue
+            skip = p.startswith('downcast:') and p.split(':', 2)[2] in ('Ok', 'Some', 'Continue')
+            if p.startswith('field:'):
+                pr.append(p)
+        pj = ''.join('.' + p.split(':')[-1] for p in pr)
         return '%s::%s()%s' % (base, nm, pj)
     if s.kind == 'cast':
         return '(%s as %s)' % (sem_sig(body, s.extra[0], depth + 1), s.extra[1])
